@@ -84,6 +84,11 @@ class ProcessLayer(object):
         self._procs[pid] = proc
         return proc
 
+    def release_all(self):
+        """end of the session: let every scripted process that still 'runs' finish"""
+        for p in list(self._procs.values()):
+            p.killed.set()
+
     def kill(self, pid, *_a):
         self.kills.append(pid)
         p = self._procs.get(pid)
@@ -114,7 +119,10 @@ class _FakeProc(object):
         self.rec['stdin'] = self.stdin.data.decode('utf-8', 'replace') if self.stdin.data else None
         o = self.outcome
         if o.interrupt:
-            _thread.interrupt_main()
+            # `_thread.interrupt_main()` does not wake a main thread that is blocked in Thread.join();
+            # a real SIGINT directed at the main thread does (it is what Ctrl-C delivers)
+            import signal
+            signal.pthread_kill(threading.main_thread().ident, signal.SIGINT)
         if o.hang or o.interrupt:
             self.killed.wait(20)
             self.returncode = -9
@@ -242,6 +250,7 @@ def run_session(workdir, argv, script=None, cpu_count=1, random_choice=None, fas
     res.stdout = out.getvalue()
     res.stderr = err.getvalue()
     if layer is not None:
+        layer.release_all()
         res.starts = layer.starts
         res.kills = layer.kills
     return res
